@@ -63,4 +63,18 @@ theorem final_ups (cs : Case) (hwf : cs.cfg.wf = true) (c o : Nat) :
   rw [hc] at this
   exact this
 
+/-! ### non-vacuity -/
+
+/-- chain lab <- board (shared) <- u-boot (exclusive); the second machine teardown raises -/
+def cfgF9 : Cfg := { n := 3, deps := [[], [(0, false)], [(1, true)]], fi := [], fd := [2] }
+
+/-- the F9 witness: keep-alive, `with ctx: request(board); request(u-boot)`; the teardown of the board
+    raises at the outermost exit — the lab-host is still torn down (model of the repaired tree) -/
+def f9 : Case := ⟨cfgF9, true, false,
+  .cons (.ctx (.cons (.req 1 false false none .nil) (.cons (.req 2 false false none .nil) .nil))) .nil⟩
+
+example : f9.cfg.wf = true := by decide
+example : Ev.created ⟨0, .fd⟩ ∈ run f9 ∧ Ev.down 0 0 ∈ run f9 := by decide
+example : Spec.C14 f9 (run f9) = true := by decide
+
 end C14
